@@ -561,7 +561,7 @@ impl<T: CanonicalDeserialize> CanonicalDeserialize for Vec<T> {
         let len = u64::deserialize_with_mode(&mut reader, compress, validate)?
             .try_into()
             .map_err(|_| SerializationError::NotEnoughSpace)?;
-        let mut values = Self::with_capacity(len);
+        let mut values = Self::with_capacity(bounded_capacity::<T>(len));
         for _ in 0..len {
             values.push(T::deserialize_with_mode(
                 &mut reader,
@@ -575,6 +575,15 @@ impl<T: CanonicalDeserialize> CanonicalDeserialize for Vec<T> {
         }
         Ok(values)
     }
+}
+
+// Helper function. The length prefix of a serialized sequence is untrusted input, so
+// only a bounded amount of memory is reserved up front; the collection grows as
+// elements are actually read from the input.
+#[inline]
+fn bounded_capacity<T>(len: usize) -> usize {
+    const MAX_PREALLOCATED_BYTES: usize = 1 << 16;
+    len.min(MAX_PREALLOCATED_BYTES / core::mem::size_of::<T>().max(1))
 }
 
 // Helper function. Serializes any sequential data type to the format
@@ -658,7 +667,7 @@ impl<T: CanonicalDeserialize> CanonicalDeserialize for VecDeque<T> {
         let len = u64::deserialize_with_mode(&mut reader, compress, validate)?
             .try_into()
             .map_err(|_| SerializationError::NotEnoughSpace)?;
-        let mut values = Self::with_capacity(len);
+        let mut values = Self::with_capacity(bounded_capacity::<T>(len));
         for _ in 0..len {
             values.push_back(T::deserialize_with_mode(
                 &mut reader,
